@@ -409,6 +409,22 @@ def r4_teardown_ladder(report, repo, rule='C01-R4'):
     return None
 
   lib.decision_table(report, rule, f, atoms, classify, spec, consistent)
+  # the decision reads the flags when it is made, i.e. after plug tear-down
+  g = lib.cfg(f)
+  tds = [n for n, c in lib.nodes_with_call(g, attr='tear_down_plugs')]
+  reads = [n for n, c in lib.nodes_with_call(g, name='self._abort.is_set')]
+  reads += [n for n in g.nodes for sub in n.subnodes()
+            if isinstance(sub, ast.Attribute) and isinstance(sub.ctx, ast.Load)
+            and dotted(sub) == 'self._last_outcome']
+  ok = bool(tds) and bool(reads) and all(
+      g.dominated_by(r, lambda n: any(n is t for t in tds)) for r in reads)
+  report.check(ok, rule, f.qualname, 'flags-read-after-teardown', f.node,
+               'abort flag and last outcome are read after plug tear-down '
+               '(an abort arriving during tearDown still yields ABORTED)',
+               'the abort flag / last outcome is read before plug tear-down '
+               'and the stale value decides the finalisation: an abort that '
+               'arrives while tearDown runs is finalised as a normal run '
+               '(PASS possible)')
 
 
 # ---- R5: terminal signals are recorded
@@ -492,6 +508,37 @@ def r5_terminal_recorded(report, repo):
                    'aggregation (possible false PASS)' %
                    (f.qualname, norm(node.ast)))
   report.expect_instances(rule, n, 7, 'terminal signal sites')
+
+  # only terminal outcomes may be parked in _last_outcome (a parked
+  # non-terminal one makes the `if not self._last_outcome` guards drop the
+  # real terminal outcome later)
+  nl = 0
+  for f in repo.methods(TE, 'TestExecutor'):
+    g = lib.cfg(f)
+    for node in g.nodes:
+      if not assigns_last(node) or not isinstance(node.ast, ast.Assign):
+        continue
+      v = node.ast.value
+      if isinstance(v, ast.Constant) and v.value is None:
+        continue
+      nl += 1
+      ok = isinstance(v, ast.Call) and last_attr(v) == \
+          'PhaseExecutionOutcome' and v.args and isinstance(
+              v.args[0], ast.Call) and last_attr(v.args[0]) == 'ExceptionInfo'
+      if not ok and isinstance(v, ast.Name):
+        ok = g.dominated_by_edge(
+            node, lambda s, l, d, _v=v.id: s.kind == 'test' and l == 'T' and
+            dotted(s.ast) == _v + '.is_terminal')
+      report.check(
+          ok, rule, f.qualname, 'last-outcome-not-terminal:' + norm(node.ast),
+          node.ast, '%s: %s stores an outcome known to be terminal' %
+          (f.qualname, norm(node.ast)),
+          '%s stores %s in self._last_outcome without it being known '
+          'terminal: a non-terminal outcome parked there makes every later '
+          '`if not self._last_outcome` guard discard the real terminal '
+          'outcome, and the run is finalised by normal aggregation' %
+          (f.qualname, norm(v)))
+  report.expect_instances(rule, nl, 4, '_last_outcome assignments')
 
   # _execute_test_diagnoser: exception handler must record when not terminal
   f = repo.func(TE, 'TestExecutor._execute_test_diagnoser')
@@ -728,3 +775,6 @@ def run(report, repo):
   # an invalid phase return value must become ERROR (shared with C05-R5)
   from sa.rules import c05  # pylint: disable=g-import-not-at-top
   c05.r5_thread_proc(report, repo, rule='C01-R10')
+  # UNSET measurements pass only while allow_unset_measurements (shared C06-R7)
+  from sa.rules import c06  # pylint: disable=g-import-not-at-top
+  c06.r7_measurements_pass(report, repo, rule='C01-R11')
